@@ -29,6 +29,7 @@ type crashInfo struct{ key, stderr string }
 
 type workerOutcome struct {
 	crashes  []crashInfo
+	gaveUp   bool
 	flaky    []string
 	res      *Result
 	crashed  bool
@@ -70,6 +71,18 @@ func runWorker(self, id, tier string, shard, n int, seed int64, tmp string) work
 			f, _ := os.OpenFile(skipFile, os.O_CREATE|os.O_APPEND|os.O_WRONLY, 0o644)
 			fmt.Fprintln(f, key)
 			f.Close()
+			if len(wo.skipped) >= 4 {
+				// repeated hangs / heap blow-ups: keep what the last attempt had found and stop
+				if b, perr := os.ReadFile(out + ".partial"); perr == nil {
+					var r Result
+					if json.Unmarshal(b, &r) == nil {
+						r.Exhaustive = false
+						wo.res = &r
+					}
+				}
+				wo.gaveUp = true
+				return wo
+			}
 			continue
 		}
 		// genuine crash: re-run in trace mode to attribute it to a case, then restart the
@@ -92,6 +105,11 @@ func runWorker(self, id, tier string, shard, n int, seed int64, tmp string) work
 				return wo
 			}
 			wo.crashes = append(wo.crashes, crashInfo{key: key, stderr: crashErr})
+			if len(wo.crashes) >= 3 {
+				// enough witnesses from this shard: report them, leave the rest of the shard unexplored
+				wo.gaveUp = true
+				return wo
+			}
 			f, _ := os.OpenFile(skipFile, os.O_CREATE|os.O_APPEND|os.O_WRONLY, 0o644)
 			fmt.Fprintln(f, key)
 			f.Close()
@@ -252,6 +270,13 @@ func Supervise(self, id, tier string) int {
 		for _, fl := range wo.flaky {
 			harnessErr = true
 			fmt.Fprintf(os.Stderr, "worker %d crashed once but not when re-run in trace mode:\n%s\n", i, fl)
+		}
+		if wo.gaveUp {
+			merged.Exhaustive = false
+			merged.Notes = append(merged.Notes, fmt.Sprintf("worker %d crashed or hung on several different cases; the rest of its shard was not explored", i))
+			if wo.res == nil {
+				continue
+			}
 		}
 		if wo.crashed {
 			kind := classifyCrash(wo.stderr)
